@@ -6,8 +6,10 @@ abstracted); TLC checks its laws over a bounded universe of abstract values and 
 prior buffer) with the expected line records; this module turns a case into a build program + the expected text and
 harness/show_replay.c builds the real object, calls show through the class table and compares."""
 import json, re, threading
-from vlib import build, x_c12
+from vlib import build, x_c12, x_x02
 from vlib.core import Broken
+
+x_c12.run_scripts = x_x02.run_scripts      # this process only: deaths without a death record are charged to the announced script
 
 PROPERTY = "X02"
 LEVEL = "model_checking"
@@ -245,6 +247,43 @@ def mk_case(sid, r):
     return x_c12.Case(sid, steps, r)
 
 
+def asbuilt_dump_row(rec):
+    """What mbuff.c:343-357 makes of a dump row: hex column at the FIXED offset 14, text column at 38 (right for indent 0 only).
+    Used only to give that known divergence its own key ("fixed-columns"); anything else on a dump row is "text"."""
+    tmp = bytearray(b" " * rec["ind"] + b"0x%08x    " % rec["n"] + b"\0" + b"\0" * 64)
+    bs = bytes(rec["t"])
+
+    def put(off, data):
+        tmp[off:off + len(data) + 1] = data + b"\0"
+    for k, c in enumerate(bs):
+        put(14 + 3 * k, b"%02x " % c)
+    for _ in range(8 - len(bs)):
+        end = tmp.index(0, 14)
+        put(end, b"   ")
+    put(38, bytes(46 if (c < 32 or c == 127) else c for c in bs).ljust(8))
+    return bytes(tmp[:tmp.index(0)])
+
+
+def text_relation(rec, e, g):
+    """Names the divergence of one line whose text (not only its indentation / newline) differs.  The as-built forms of the
+    recorded findings get their own relation so that any OTHER wrong text on the same kind of line still alarms."""
+    k = rec["k"]
+    d = rec["d"][0] if k == "item" else rec
+    if d["k"] == "str" and d["cls"] == "ustr" and d["n"] > 0:
+        if g == e.replace(b'{ "' + text_bytes(d["t"], d["rep"]) + b'", len', b'{ "", len', 1):
+            return "text-omitted"
+    if d["k"] == "obj":
+        q = e.rindex(b' "!spif_')
+        if g[:q + 2] == e[:q + 2]:              # right up to the opening quote (the bytes printed may even hold a newline)
+            return "classname-bytes"
+    if d["k"] == "open" and d["cls"] == "objpair":
+        if g[:len(e) - 1] == e[:-1] and g[len(e) - 1:len(e)] == b'"':
+            return "one-line-obj-form"
+    if k == "dump" and g == re.sub(rb"0x[0-9a-f]{9,}", b"P", asbuilt_dump_row(rec)):      # (the harness's pointer normalisation applies)
+        return "fixed-columns"
+    return "text"
+
+
 # ---- classification of a failing case into specific finding keys ---------------------------------------------------
 def diff_keys(r, got):
     """Walks the expected line records over the text the implementation produced and names every divergence by the show
@@ -267,7 +306,9 @@ def diff_keys(r, got):
     while i < len(recs):
         rec = recs[i]
         who, item_ind, item_cls, end = ann[i]
-        kind = rec["k"] + ("/" + rec["d"][0]["k"] if rec["k"] == "item" else "")
+        kind = rec["k"]
+        if kind == "dump":
+            kind += "@indent0" if rec["ind"] == 2 else "@indent>0"
         e = render_line(rec)
         rest = got[cur:cur + len(e) + 4200]
         if rest.startswith(e + b"\n"):
@@ -283,23 +324,46 @@ def diff_keys(r, got):
         after = rest[gi:]
         if after.startswith(body):
             nl = after[len(body):len(body) + 1] == b"\n"
-            rel = []
+            what = "line %d exp=%r got=%r" % (i, e[:160], rest[:gi + len(body) + 1][:160])
             if gi != rec["ind"]:
                 if item_ind >= 0 and gi == rec["ind"] - item_ind:
-                    who, kind = item_cls, "continuation"
-                    rel.append("element-rendered-at-indent-0")
+                    add("show %s:continuation element-rendered-at-indent-0" % item_cls, what)
                 else:
-                    rel.append("unindented" if gi == 0 else ("indent%+d" % (gi - rec["ind"])))
+                    add("show %s:%s %s" % (who, kind, "unindented" if gi == 0 else ("indent%+d" % (gi - rec["ind"]))), what)
             if not nl:
-                rel.append("no-newline")
-            add("show %s:%s %s" % (who, kind, "+".join(rel)), "line %d exp=%r got=%r" % (i, e[:160], rest[:gi + len(body) + 1][:160]))
+                add("show %s:%s%s no-newline" % (who, kind, "/" + rec["d"][0]["k"] if kind == "item" else ""), what)
             cur += gi + len(body) + (1 if nl else 0)
             i += 1
             continue
         j = rest.find(b"\n")
-        add("show %s:%s text" % (who, kind), "line %d exp=%r got=%r" % (i, e[:160], rest[:j if j >= 0 else 160][:160]))
-        cur += (j + 1) if j >= 0 else len(rest)
-        i = end if end > 0 else i + 1        # a block whose header is wrong is skipped as a whole
+        if kind == "item":
+            d = rec["d"][0]
+            head = body[:len(body) - len(render_body(d))]
+            if after.startswith(head):          # the item prefix is right: the element's own first line differs
+                who, kind = d.get("cls", "mbuff"), d["k"]
+            else:
+                kind = "item/" + d["k"]
+        gline = rest[:j] if j >= 0 else rest
+        add("show %s:%s %s" % (who, kind, text_relation(rec, e, gline)), "line %d exp=%r got=%r" % (i, e[:200], gline[:200]))
+        # resynchronise at the next expected line behind this line / behind the block this line opens
+        nx = end if end > 0 else i + 1
+        if nx >= len(recs):
+            return keys
+        nb = render_line(recs[nx])[recs[nx]["ind"]:]
+        pos = got.find(nb, cur)
+        while pos >= 0:                       # the next expected line must begin a line of the output
+            q = pos
+            while q > cur and got[q - 1:q] == b" ":
+                q -= 1
+            if q > cur and got[q - 1:q] == b"\n":
+                break
+            pos = got.find(nb, pos + 1)
+        if pos < 0:
+            # no way to line the rest up; one more thing can still be said: does the rendering end with its closing brace?
+            if recs[-1]["k"] == "close" and not got.endswith(b"}\n"):
+                add("show %s:close missing" % ann[-1][0], "the output does not end with the closing brace: ...%r" % got[-80:])
+            return keys
+        cur, i = q, nx
     if cur < len(got):
         add("show %s extra-text" % r["v"]["cls"], "text behind the last expected line: %r" % got[cur:cur + 160])
     return keys or [("show %s undetermined" % r["v"]["cls"], "token mismatch without a differing line")]
@@ -311,6 +375,7 @@ _LOCK = threading.Lock()
 class Runner:
     def __init__(self, ctx, exe, alt):
         self.ctx, self.alt = ctx, alt
+        self.dead = set()
         self.cs = x_c12.CaseStream(ctx, exe, [str(alt)], self.keyfn, "alt%d" % alt, chunk=4000, env={"VH_TOKEN_MAX": str(1 << 20)})
 
     def keyfn(self, c, at, f):
@@ -323,7 +388,10 @@ class Runner:
     def _on_fail(self, c, at, f):
         r = c.meta
         op = c.steps[at][0]
-        pre = "" if self.alt == 0 else ""
+        if c.sid in self.dead:
+            return True         # x_c12 re-runs the steps behind a crash as a script of their own: meaningless for a stack program
+        if f.kind in ("crash", "hang", "exit"):
+            self.dead.add(c.sid)
         rp = {"harness_args": [str(self.alt)], "script_text": c.text(), "failure": repr(f)[:2000], "detail": f.detail[:4000],
               "case": {k: r[k] for k in ("fam", "v", "name", "ind", "prior")}}
         if op != "show":
@@ -332,15 +400,15 @@ class Runner:
             return True
         if f.kind in ("crash", "hang", "exit"):
             cls = "[%s]" % argclass(r) if r["fam"] == "big" else "[%s]" % vclass(r["v"])
-            self.ctx.report(pre + "show %s %s %s" % (r["v"]["cls"], cls, x_c12.fail_class(f)),
+            self.ctx.report("show %s %s %s" % (r["v"]["cls"], cls, x_c12.fail_class(f)),
                             "%s.show(name %d chars, indent %d): %s %s" % (r["v"]["cls"], len(name_bytes(r["name"])), r["ind"], f.kind, f.sig), rp)
             return True
         if f.kind == "ret":
             for key, what in diff_keys(r, dec(f.got)):
-                self.ctx.report(pre + key, "%s.show(name %r, indent %d): %s" % (r["v"]["cls"], r["name"], r["ind"], what), rp)
+                self.ctx.report(key, "%s.show(name %r, indent %d): %s" % (r["v"]["cls"], r["name"], r["ind"], what), rp)
             return True
         if f.kind == "heap":
-            self.ctx.report(pre + "show %s [%s] heap" % (r["v"]["cls"], vclass(r["v"])),
+            self.ctx.report("show %s [%s] heap" % (r["v"]["cls"], vclass(r["v"])),
                             "%s.show leaves the heap unbalanced: %s -> %s bytes" % (r["v"]["cls"], f.exp, f.got), rp)
             return True
         return False
@@ -361,7 +429,9 @@ def run(ctx):
     n = [0]
     taken = {"OpShowSmall": 0, "OpShowBig": 0}
     nontriv = [0]
+    nsteps = [0]
     classes = {}
+    best = {}
     want = {("tok", 2, "nm"), ("linked_list", 2, "nm"), ("url", 1, ""), ("mbuff", 7, "nm"), ("dlinked_list_iterator", 0, "nm"), ("objpair", 2, "")}
 
     def on_case(r):
@@ -370,16 +440,20 @@ def run(ctx):
         if len(r["lines"]) != r["nlines"]:
             raise Broken("case with %d lines but nlines=%d" % (len(r["lines"]), r["nlines"]))
         for rn in runners:
-            rn.cs.add(mk_case(n[0] * 2 + rn.alt, r))
+            case = mk_case(n[0] * 2 + rn.alt, r)
+            nsteps[0] += len(case.steps)
+            rn.cs.add(case)
         c = r["v"]["cls"]
         classes[c] = classes.get(c, 0) + 1
         if not r["v"]["nul"]:
             nontriv[0] += 1
         key = (c, r["ind"], r["name"])
         if r["fam"] == "small" and key in want and not r["prior"]["some"] and not r["v"]["nul"] and depth(r["v"]) <= 2:
-            want.discard(key)
-            ctx.sample({"class": c, "value": r["v"], "name": r["name"], "indent": r["ind"],
-                        "expected_text": b"".join(render_line(x) + b"\n" for x in r["lines"]).decode("latin-1").split("\n")[:-1]})
+            # chosen by content (the largest value of that class), so the evidence does not depend on TLC's emission order
+            rank = (len(r["lines"]), json.dumps(r["v"], sort_keys=True))
+            if key not in best or rank > best[key][0]:
+                best[key] = (rank, {"class": c, "value": r["v"], "name": r["name"], "indent": r["ind"],
+                                    "expected_text": b"".join(render_line(x) + b"\n" for x in r["lines"]).decode("latin-1").split("\n")[:-1]})
     try:
         res = x_c12.tlc_cases(ctx, "MC_ShowFmt.tla", cfg, ACTIONS, on_case, coverage=False, taken=lambda: taken, timeout=1500)
     finally:
@@ -387,7 +461,13 @@ def run(ctx):
     for t in tots:
         if res.ok and t["scripts"] != res.edges:
             raise Broken("emitted %d cases, replayed %d" % (res.edges, t["scripts"]))
-    ctx.cov["samples"].sort(key=lambda s: json.dumps(s, sort_keys=True))
+    # a harness process that dies inside a step cannot report how many steps it had executed, so the harness's own step count
+    # depends on how the cases were spread over processes: the evidence counts the steps of the scripts instead
+    ctx.cov["evaluations"] = nsteps[0]
+    for t in ctx.cov["replay"].values():
+        t["steps"] = nsteps[0] // 2
+    for key in sorted(best):
+        ctx.sample(best[key][1])
     ctx.add("distinct_nontrivial", nontriv[0])
     ctx.cov["cases_per_class"] = dict(sorted(classes.items()))
     ctx.cov["exhaustive"] = True
